@@ -86,8 +86,10 @@ class Probe:
             rep = self._readline()
         except (BrokenPipeError, OSError):
             rep = b""
-        while rep and not rep.strip():
+        # replies are marked "@@R " at line start; anything else is chatter of the library on stdout
+        while rep and not rep.startswith(b"@@R "):
             rep = self._readline()
+        rep = rep[4:] if rep else rep
         if not rep:
             rc = self.p.wait()
             err = self._stderr_tail()
